@@ -83,7 +83,7 @@ func sameOutput(b, ref []byte) bool {
 }
 
 // model path ids of the fixed names
-var pathID = map[string]int{"in.pdf": 2, "out.pdf": 3, "in2.pdf": 4, "other.dat": 5, "att.txt": 6}
+var pathID = map[string]int{"in.pdf": 2, "out.pdf": 3, "in2.pdf": 4, "other.dat": 5, "att.txt": 6, "target.pdf": 7, "store/report.pdf": 8}
 
 type op struct {
 	name    string
@@ -95,6 +95,7 @@ type op struct {
 	enc     bool        // output is encrypted (validate with the password)
 	stdin   bool        // the child reads in.pdf from stdin (cli stream)
 	noOut   bool        // no out.pdf in the directory (in-place operations)
+	kind    string      // what the named output is: "" regular | absent | symlink-same | symlink-other | symlink-chain | dangling | hardlink
 	fault   string      // "mktemp": creating the staging file is expected to fail (staging name > NAME_MAX)
 	outName string      // name of the existing explicit output (default out.pdf)
 	mode    os.FileMode // permission bits of the destination before the run (0 = 0640 for in.pdf, 0600 for out.pdf)
@@ -121,6 +122,11 @@ func conf() *model.Configuration {
 	c.WriteObjectStream = false
 	c.WriteXRefStream = false
 	return c
+}
+
+func cliRotateStdin(d string) error {
+	_, err := cli.Dispatch(cli.RotateCommand("-", p(d, "out.pdf"), 90, nil, conf()))
+	return err
 }
 
 func encConf() *model.Configuration { return model.NewAESConfiguration("user", "owner", 256) }
@@ -157,6 +163,10 @@ func ops() []op {
 			run: func(d string) error { return api.OptimizeFile(p(d, "in.pdf"), p(d, long(251)), conf()) }},
 		{name: "optimize-existing-long200", proto: "api:flag:2:2:3", dest: long(200), outName: long(200), fin: "ok",
 			run: func(d string) error { return api.OptimizeFile(p(d, "in.pdf"), p(d, long(200)), conf()) }},
+		// the CLI stream path (`pdfcpu rotate - out.pdf`: stdin input, named output; cli.Dispatch -> streamInOutForOperation
+		// -> createStreamOutput) with the output reached through a symlink into another directory / being a regular file
+		{name: "cli-rotate-stdin-symlink-other", proto: "cli:-:3", dest: "out.pdf", fin: "ok", stdin: true, kind: "symlink-other", run: cliRotateStdin},
+		{name: "cli-rotate-stdin-regular", proto: "cli:-:3", dest: "out.pdf", fin: "ok", stdin: true, run: cliRotateStdin},
 		{name: "encrypt-inplace", proto: "api:flag:2:2:-", dest: "in.pdf", fin: "ok", enc: true, noOut: true,
 			run: func(d string) error { return api.EncryptFile(p(d, "in.pdf"), "", encConf()) }},
 		{name: "optimize-corrupt-inplace", proto: "api:flag:2:2:-", dest: "in.pdf", fin: "err", corrupt: true, noOut: true,
@@ -199,6 +209,18 @@ func ops() []op {
 		{name: "writereader-existing-long250", proto: "pdf:none:-:3", dest: long(250), outName: long(250), fin: "ok", fault: "mktemp",
 			run: func(d string) error {
 				return pdfcpu.WriteReader(p(d, long(250)), bytes.NewReader(bytes.Repeat([]byte("new content "), 3000)))
+			}},
+		{name: "cli-rotate-stdin-absent", proto: "cli:-:3", dest: "out.pdf", fin: "ok", stdin: true, kind: "absent", run: cliRotateStdin},
+		{name: "cli-rotate-stdin-readonly", proto: "cli:-:3", dest: "out.pdf", fin: "ok", stdin: true, mode: 0o444, run: cliRotateStdin},
+		{name: "cli-rotate-stdin-symlink-same", proto: "cli:-:3", dest: "out.pdf", fin: "ok", stdin: true, kind: "symlink-same", run: cliRotateStdin},
+		{name: "cli-rotate-stdin-symlink-chain", proto: "cli:-:3", dest: "out.pdf", fin: "ok", stdin: true, kind: "symlink-chain", run: cliRotateStdin},
+		{name: "cli-rotate-stdin-dangling", proto: "cli:-:3", dest: "out.pdf", fin: "ok", stdin: true, kind: "dangling", run: cliRotateStdin},
+		{name: "cli-rotate-stdin-hardlink", proto: "cli:-:3", dest: "out.pdf", fin: "ok", stdin: true, kind: "hardlink", run: cliRotateStdin},
+		{name: "optimize-existing-symlink-other", proto: "api:flag:2:2:3", dest: "out.pdf", fin: "ok", kind: "symlink-other",
+			run: func(d string) error { return api.OptimizeFile(p(d, "in.pdf"), p(d, "out.pdf"), conf()) }},
+		{name: "writereader-existing-symlink-same", proto: "pdf:none:-:3", dest: "out.pdf", fin: "ok", kind: "symlink-same",
+			run: func(d string) error {
+				return pdfcpu.WriteReader(p(d, "out.pdf"), bytes.NewReader(bytes.Repeat([]byte("new content "), 3000)))
 			}},
 		{name: "rotate-existing-0400", proto: "api:flag:2:2:3", dest: "out.pdf", fin: "ok", mode: 0o400,
 			run: func(d string) error { return api.RotateFile(p(d, "in.pdf"), p(d, "out.pdf"), 90, nil, conf()) }},
@@ -270,7 +292,7 @@ func main() {
 	h := &harness{r: r, base: base}
 	h.prepare()
 	all := ops()
-	n := r.Pick(12, len(all))
+	n := r.Pick(14, len(all))
 	for _, o := range all[:n] {
 		h.runOp(o)
 	}
@@ -312,19 +334,22 @@ func (h *harness) prepare() {
 
 type entry struct {
 	mode os.FileMode
-	data []byte
+	data []byte // for a symlink: the bytes (and mode) of the file the path resolves to
+	link string // symbolic link to this (relative) path
+	hard string // hard link of this name
+	aux  bool   // not part of the model's directory (a pure symlink: intermediate link, dangling destination)
 }
 
 // the initial directory of an operation
 func (h *harness) initial(o op) map[string]entry {
 	m := map[string]entry{
-		"in.pdf":    {0o640, h.multi},
-		"in2.pdf":   {0o644, h.small},
-		"other.dat": {0o600, []byte("other")},
-		"att.txt":   {0o644, []byte("attachment\n")},
+		"in.pdf":    {mode: 0o640, data: h.multi},
+		"in2.pdf":   {mode: 0o644, data: h.small},
+		"other.dat": {mode: 0o600, data: []byte("other")},
+		"att.txt":   {mode: 0o644, data: []byte("attachment\n")},
 	}
 	if o.corrupt {
-		m["in.pdf"] = entry{0o640, []byte("%PDF-1.7\nthis is not a pdf\n")}
+		m["in.pdf"] = entry{mode: 0o640, data: []byte("%PDF-1.7\nthis is not a pdf\n")}
 	}
 	if !o.noOut {
 		out := "out.pdf"
@@ -332,15 +357,35 @@ func (h *harness) initial(o op) map[string]entry {
 			out = o.outName
 		}
 		if o.outPDF {
-			m[out] = entry{0o600, h.small}
+			m[out] = entry{mode: 0o600, data: h.small}
 		} else {
-			m[out] = entry{0o600, []byte("EXISTING OUTPUT, not a PDF")}
+			m[out] = entry{mode: 0o600, data: []byte("EXISTING OUTPUT, not a PDF")}
 		}
 	}
 	if o.mode != 0 {
 		e := m[o.dest]
 		e.mode = o.mode
 		m[o.dest] = e
+	}
+	old := []byte("EXISTING OUTPUT, not a PDF")
+	switch o.kind {
+	case "absent":
+		delete(m, "out.pdf")
+	case "symlink-same":
+		m["target.pdf"] = entry{mode: 0o600, data: old}
+		m["out.pdf"] = entry{mode: 0o600, data: old, link: "target.pdf"}
+	case "symlink-other":
+		m["store/report.pdf"] = entry{mode: 0o640, data: old}
+		m["out.pdf"] = entry{mode: 0o640, data: old, link: "store/report.pdf"}
+	case "symlink-chain":
+		m["target.pdf"] = entry{mode: 0o600, data: old}
+		m["l2.pdf"] = entry{link: "target.pdf", aux: true}
+		m["out.pdf"] = entry{mode: 0o600, data: old, link: "l2.pdf"}
+	case "dangling":
+		m["out.pdf"] = entry{link: "missing.pdf", aux: true}
+	case "hardlink":
+		m["target.pdf"] = entry{mode: 0o600, data: old}
+		m["out.pdf"] = entry{mode: 0o600, data: old, hard: "target.pdf"}
 	}
 	return m
 }
@@ -353,10 +398,26 @@ func (h *harness) mkdir(o op, init map[string]entry) string {
 		panic(err)
 	}
 	for n, e := range init {
+		if e.link != "" || e.hard != "" {
+			continue
+		}
+		os.MkdirAll(filepath.Dir(p(d, n)), 0o755)
 		if err := os.WriteFile(p(d, n), e.data, 0o644); err != nil {
 			panic(err)
 		}
 		os.Chmod(p(d, n), e.mode)
+	}
+	for n, e := range init {
+		switch {
+		case e.hard != "":
+			if err := os.Link(p(d, e.hard), p(d, n)); err != nil {
+				panic(err)
+			}
+		case e.link != "":
+			if err := os.Symlink(e.link, p(d, n)); err != nil {
+				panic(err)
+			}
+		}
 	}
 	return d
 }
@@ -526,10 +587,11 @@ func abstract(evs []sysEvent, dir string, init map[string]entry, dest string) ab
 		a.skel = append(a.skel, s)
 	}
 	inDir := func(path string) (string, bool) {
-		if filepath.Dir(path) == dir {
-			return filepath.Base(path), true
+		rel, err := filepath.Rel(dir, path)
+		if err != nil || rel == "." || strings.HasPrefix(rel, "..") {
+			return "", false
 		}
-		return "", false
+		return rel, true
 	}
 	pre := func(n string) bool { _, ok := init[n]; return ok && !created[n] }
 	for _, e := range evs {
@@ -650,6 +712,9 @@ func abstract(evs []sysEvent, dir string, init map[string]entry, dest string) ab
 func modelInit(init map[string]entry, dest string) string {
 	var l []string
 	for n, e := range init {
+		if e.aux {
+			continue
+		}
 		l = append(l, fmt.Sprintf("%x:%x:%02x", pathID[n], uint32(e.mode), 0x10+pathID[n]))
 	}
 	sort.Strings(l)
@@ -682,18 +747,37 @@ func (h *harness) isNew(o op, b []byte, ref []byte, path string) bool {
 
 func (h *harness) observe(o op, dir string, init map[string]entry, ref []byte) dirState {
 	var st dirState
-	ents, _ := os.ReadDir(dir)
 	var l []string
 	seen := map[string]bool{}
-	for _, de := range ents {
-		n := de.Name()
-		fi, err := os.Lstat(p(dir, n))
+	var names []string
+	filepath.Walk(dir, func(path string, fi os.FileInfo, err error) error {
+		if err != nil || path == dir || fi.IsDir() {
+			return nil
+		}
+		rel, _ := filepath.Rel(dir, path)
+		names = append(names, rel)
+		return nil
+	})
+	for _, n := range names {
+		lfi, err := os.Lstat(p(dir, n))
 		if err != nil {
 			continue
 		}
 		e0, known := init[n]
+		if !known && n == o.dest && o.kind == "absent" {
+			// a new output: whatever it holds is not a replacement; rendered for the trace comparison only
+			b, _ := os.ReadFile(p(dir, n))
+			tag := "ff"
+			st.destTag = "partial-new-file"
+			if h.isNew(o, b, ref, p(dir, n)) {
+				tag = "02"
+				st.destTag = "new"
+			}
+			l = append(l, fmt.Sprintf("%x:%x:%s", pathID[n], uint32(lfi.Mode().Perm()), tag))
+			continue
+		}
 		if !known {
-			if isStagingName(n, o.dest) && fi.Mode().IsRegular() {
+			if isStagingName(n, o.dest) && lfi.Mode().IsRegular() {
 				l = append(l, "T")
 			} else {
 				st.stray = append(st.stray, n)
@@ -702,6 +786,19 @@ func (h *harness) observe(o op, dir string, init map[string]entry, ref []byte) d
 			continue
 		}
 		seen[n] = true
+		if e0.aux {
+			// a pure symlink must stay what it was
+			if t, err := os.Readlink(p(dir, n)); err != nil || t != e0.link {
+				st.damaged = append(st.damaged, n+"(symlink)")
+			}
+			continue
+		}
+		// through symlinks: what the path resolves to
+		fi, err := os.Stat(p(dir, n))
+		if err != nil {
+			delete(seen, n)
+			continue
+		}
 		b, _ := os.ReadFile(p(dir, n))
 		tag := "ff"
 		switch {
@@ -749,7 +846,10 @@ func (h *harness) runOp(o op) {
 	// 1. recording
 	dir := h.mkdir(o, init)
 	log, exit, killed := h.strace(o, dir, "")
-	wantErr := o.fin == "err" || o.fault != ""
+	// a dangling symlink as output: O_EXCL fails (the name exists), stat fails: clean error expected; the
+	// model has no symlinks, so no K for it.  An absent output is a new file, not a replacement: trace K only.
+	wantErr := o.fin == "err" || o.fault != "" || o.kind == "dangling"
+	looseDest := o.kind == "dangling" || o.kind == "absent"
 	fault := "-"
 	if o.fault != "" {
 		fault = o.fault
@@ -780,7 +880,9 @@ func (h *harness) runOp(o op) {
 		ctl = "err"
 	}
 	r.Count("op:" + o.name)
-	r.Case("trace", []string{o.proto, minit, chunks, o.fin, fault}, ctl+"|"+strings.Join(abs.skel, ";")+"|"+st.canon)
+	if o.kind != "dangling" {
+		r.Case("trace", []string{o.proto, minit, chunks, o.fin, fault}, ctl+"|"+strings.Join(abs.skel, ";")+"|"+st.canon)
+	}
 	if len(abs.violation) > 0 {
 		r.OracleFail("writes-into-preexisting-file:"+o.name, map[string]any{"op": o.name}, strings.Join(abs.violation, "; "))
 	} else {
@@ -789,6 +891,9 @@ func (h *harness) runOp(o op) {
 	want := "new"
 	if wantErr {
 		want = "old"
+	}
+	if o.kind == "dangling" {
+		want = ""
 	}
 	if st.destTag != want || len(st.stray)+len(st.damaged)+len(st.missing) > 0 || strings.Contains(st.canon, "T") {
 		r.OracleFail("uninterrupted-run-wrong-result:"+o.name, map[string]any{"op": o.name}, fmt.Sprintf("dest=%s state=%s", st.destTag, st.canon))
@@ -874,9 +979,9 @@ func (h *harness) runOp(o op) {
 		kst := h.observe(o, dir, init, ref)
 		detail := fmt.Sprintf("dest=%s state=%s skeleton=%s", kst.destTag, kst.canon, strings.Join(kabs.skel, ";"))
 		switch {
-		case kst.destTag != "old" && kst.destTag != "new":
+		case !looseDest && kst.destTag != "old" && kst.destTag != "new":
 			r.OracleFail("crash-leaves-destination-"+kst.destTag+":"+o.name, input, detail)
-		case wantErr && kst.destTag != "old":
+		case !looseDest && wantErr && kst.destTag != "old":
 			r.OracleFail("crash-publishes-failed-output:"+o.name, input, detail)
 		case len(kst.damaged)+len(kst.missing) > 0:
 			r.OracleFail("crash-damages-other-file:"+o.name, input, detail+fmt.Sprintf(" damaged=%v missing=%v", kst.damaged, kst.missing))
@@ -892,7 +997,9 @@ func (h *harness) runOp(o op) {
 			infl = "1"
 		}
 		// the kill lands on syscall entry or exit: the interrupted call may or may not have happened
-		r.Case("crash", []string{o.proto, minit, chunks, o.fin, fault, strconv.Itoa(len(kabs.skel)), infl, kst.canon}, "match")
+		if !looseDest {
+			r.Case("crash", []string{o.proto, minit, chunks, o.fin, fault, strconv.Itoa(len(kabs.skel)), infl, kst.canon}, "match")
+		}
 		os.RemoveAll(dir)
 	}
 }
